@@ -222,6 +222,12 @@ def run(ctx):
             dist["N:DefsNice(hypothesis of merge_events_in_place)=%s" % kv.get("defsnice")] += 1
             if nl >= 2:
                 dist["N:multi-layer:static=%s,crossNice=%s,staticNice(premise of merge_well_nested_partial)=%s" % (kv.get("static"), kv.get("crossnice"), kv.get("staticnice"))] += 1
+                multi["wn_multi"] += 1
+                multi["wn_static"] += int(kv.get("static") == "1")
+                multi["wn_premise"] += int(kv.get("staticnice") == "1")
+                multi["wn_cross"] += int(kv.get("crossnice") == "1")
+                multi["wn_lam_only"] += int(kv.get("crosslam") == "1" and kv.get("crossnice") != "1")
+                multi["wn_not_lam"] += int(kv.get("crosslam") != "1")
             if kv.get("refsup") != "1":
                 report_corr(cid, kv, "layer table of a real case violates refsUp (hypothesis of merge_multi_wellformed)", "refsUp")
             if kv.get("defsin") != "1":
@@ -355,6 +361,14 @@ def run(ctx):
         "correspondence_merge_multi": {"compared": multi["compared"], "equal": multi["equal"]},
         "correspondence_c_api": {"compared": multi["capi_compared"], "equal": multi["capi_equal"],
                                  "how": "html + line offsets from ts_highlight_buffer_* vs the model renderer fed with the Rust API's events"},
+        "well_nested_premise_on_real_multi_layer_cases": {
+            "multi_layer_cases": multi["wn_multi"],
+            "crossNice_holds(laminar+oriented start ties over span captures)": multi["wn_cross"],
+            "excluded_start_tie_wrong_orientation(real stream itself not well nested: judge skips)": multi["wn_lam_only"],
+            "excluded_not_laminar": multi["wn_not_lam"],
+            "static_layers(no injection created during the run)": multi["wn_static"],
+            "staticNice_holds(full premise of merge_well_nested_partial: proved)": multi["wn_premise"],
+            "note": "the theorem is proved for static layers only; crossNice_holds is the fraction it would cover once dynamic layers are proved"},
         "correspondence_merge_full": {"compared": multi["full_compared"], "equal": multi["full_equal"]},
         "correspondence_merge_locals": {"compared": multi["locals_compared"], "equal": multi["locals_equal"]},
         "correspondence_intersect_ranges": {"compared": multi["ir_compared"], "equal": multi["ir_equal"], "of_which_against_the_real_private_function": multi["ir_real"],
